@@ -172,111 +172,92 @@ class _Abort(Exception):
     pass
 
 
-def _exec_guard(wrapped, val):
-    """Execute `wrapped` abstractly. val: dict C,E,F1,F2 -> bool. Returns a trace dict."""
-    st = {"C": val["C"], "E": val["E"], "locals": {}, "fo_calls": [], "size": None, "func_called": False, "raised": None, "events": []}
+def _exec_guard(ctx, fn, val):
+    """Fold `wrapped` on one valuation (C: already connected, E: extended flag, F1 / F2: results of the Forward Open attempts)
+    with sa/miniinterp.py: `self._forward_open()` and the decorated function are markers.  Returns a trace dict; raises _Abort
+    when the guard cannot be folded."""
+    from ..consteval import UNKNOWN
+    from ..miniinterp import Obj, _Raise, run_function
+
+    wrapped = fn.node
     results = [val["F1"], val["F2"]]
+    me = Obj(_target_is_connected=val["C"], _cfg={"extended forward open": val["E"], "connection_size": 4002})
+    st = {"fo_calls": [], "func_called": False, "raised": None, "connected_at_call": None}
 
-    def ev(e):
-        if isinstance(e, ast.Constant):
-            return e.value
-        if isinstance(e, ast.UnaryOp) and isinstance(e.op, ast.Not):
-            return not ev(e.operand)
-        if isinstance(e, ast.BoolOp):
-            vals = [ev(v) for v in e.values]
-            return all(vals) if isinstance(e.op, ast.And) else any(vals)
-        p = attr_path(e)
-        if p == "self._target_is_connected":
-            return st["C"]
-        if isinstance(e, ast.Subscript) and attr_path(e.value) == "self._cfg" and isinstance(e.slice, ast.Constant):
-            if e.slice.value == "extended forward open":
-                return st["E"]
-            raise _Abort(f"reads _cfg[{e.slice.value!r}]")
-        if isinstance(e, ast.Call) and attr_path(e.func) == "self._forward_open":
+    def hook(call, env, it):
+        path = attr_path(call.func) or ""
+        if path == "self._forward_open":
             if len(st["fo_calls"]) >= 2:
-                raise _Abort("more than two _forward_open attempts")
+                raise _Raise("<more than two Forward Open attempts>")
             r = results[len(st["fo_calls"])]
-            st["fo_calls"].append({"extended": st["E"], "size": st["size"], "result": r})
+            st["fo_calls"].append({"extended": bool(me._cfg.get("extended forward open")), "size": me._cfg.get("connection_size") if me._cfg.get("connection_size") != 4002 else None, "result": r})
+            if r == "raise":
+                raise _Raise("CommError")
             if r:
-                st["C"] = True
+                me._target_is_connected = True
             return r
-        if isinstance(e, ast.Name) and e.id in st["locals"]:
-            return st["locals"][e.id]
-        raise _Abort(f"cannot interpret `{ast.unparse(e)}`")
+        if atom_name(call.func) == "func":
+            st["func_called"] = True
+            st["connected_at_call"] = bool(me._target_is_connected)
+            return "<result of func>"
+        if path.startswith("logging.") or path.split(".")[0] in ("logger", "log"):
+            return Obj()
+        return UNKNOWN
 
-    def run(stmts):
-        for s in stmts:
-            if isinstance(s, ast.Expr):
-                if isinstance(s.value, ast.Constant):
-                    continue
-                if isinstance(s.value, ast.Call):
-                    cn = call_name(s.value) or ""
-                    if cn.split(".")[0] in ("logger", "logging") or ".__log." in cn or cn.startswith("logger"):
-                        continue
-                    if cn == "self._forward_open":
-                        ev(s.value)
-                        continue
-                raise _Abort(f"statement `{ast.unparse(s)}`")
-            if isinstance(s, ast.Assign):
-                t = s.targets[0]
-                if isinstance(t, ast.Name):
-                    if isinstance(s.value, ast.Call) and (call_name(s.value) or "").startswith("logging."):
-                        st["locals"][t.id] = "logger"
-                        continue
-                    if isinstance(s.value, ast.JoinedStr):
-                        st["locals"][t.id] = "text"
-                        continue
-                    st["locals"][t.id] = ev(s.value)
-                    continue
-                if isinstance(t, ast.Subscript) and attr_path(t.value) == "self._cfg" and isinstance(t.slice, ast.Constant):
-                    k = t.slice.value
-                    v = s.value.value if isinstance(s.value, ast.Constant) else None
-                    if k == "extended forward open":
-                        st["E"] = bool(v)
-                    elif k == "connection_size":
-                        st["size"] = v
-                    st["events"].append((k, v))
-                    continue
-                raise _Abort(f"assignment `{ast.unparse(s)}`")
-            if isinstance(s, ast.If):
-                if ev(s.test):
-                    r = run(s.body)
-                else:
-                    r = run(s.orelse)
-                if r:
-                    return r
-                continue
-            if isinstance(s, ast.Return):
-                if isinstance(s.value, ast.Call) and atom_name(s.value.func) == "func":
-                    st["func_called"] = True
-                    st["connected_at_call"] = st["C"]
-                return "return"
-            if isinstance(s, ast.Raise):
-                st["raised"] = exc_name(s.exc)
-                return "raise"
-            raise _Abort(f"statement kind {type(s).__name__}")
-        return None
-
-    run(wrapped.body)
+    a = wrapped.args
+    env = {a.args[0].arg: me}
+    if a.vararg:
+        env[a.vararg.arg] = ()
+    if a.kwarg:
+        env[a.kwarg.arg] = {}
+    env["func"] = Obj(__name__="operation")
+    kind, res = run_function(ctx, fn.module, wrapped, env, call_hook=hook, deep=False)
+    st["final_cfg"] = dict(me._cfg)
+    if kind == "unknown":
+        raise _Abort(res)
+    if kind == "raise":
+        if res.startswith("<"):
+            raise _Abort(res.strip("<>"))
+        st["raised"] = res
+    elif st["func_called"] and res != "<result of func>":
+        st["result_dropped"] = True
     return st
 
 
-@rule(P, "D10.2", "T-ABSTRACT-EXEC", floor=16)
+@rule(P, "D10.2", "T-ABSTRACT-EXEC", floor=19)
 def d10_2(ctx):
     """The guard: func runs only when connected; extended attempt first, then standard with size 500; at most two attempts; else ResponseError."""
     fn = ctx.model.func(f"{CD}:with_forward_open.wrapped")
     base = ckey(fn)
-    for C, E, F1, F2 in itertools.product([False, True], repeat=4):
+    for C, E, F1, F2 in list(itertools.product([False, True], repeat=4)) + [(False, True, False, "raise"), (False, True, "raise", False), (False, False, "raise", False)]:
         val = {"C": C, "E": E, "F1": F1, "F2": F2}
-        tag = f"C={int(C)},E={int(E)},F1={int(F1)},F2={int(F2)}"
+        tag = f"C={int(C)},E={int(E)},F1={F1 if isinstance(F1, str) else int(F1)},F2={F2 if isinstance(F2, str) else int(F2)}"
         try:
-            st = _exec_guard(fn.node, val)
+            st = _exec_guard(ctx, fn, val)
         except _Abort as err:
             ctx.violation(base + f"#{tag}", fn.node, f"guard not interpretable as a finite state machine: {err}")
             return
         probs = []
         calls = st["fo_calls"]
+        if "raise" in (F1, F2):
+            # a transport failure during an attempt propagates, and leaves the configuration in one of the two consistent states
+            # (extended flag with the configured size, or standard service with size 500)
+            final = (st["final_cfg"]["extended forward open"], st["final_cfg"]["connection_size"])
+            if st["raised"] != "CommError":
+                probs.append(f"a CommError raised by a Forward Open attempt ends as {st['raised'] or 'a normal return'}")
+            if st["func_called"]:
+                probs.append("func is executed although the Forward Open attempt failed with CommError")
+            if final not in ((True, 4002), (False, 500)) and E:
+                probs.append(f"after the failed attempt the configuration is extended={final[0]}, connection size {final[1]}: a later standard Forward Open would request a size its 9-bit field cannot carry")
+            key = base + f"#{tag}"
+            if probs:
+                ctx.violation(key, fn.node, "; ".join(probs), attempts=calls)
+            else:
+                ctx.ok(key, fn.node, "a transport failure during an attempt propagates and leaves a consistent configuration", attempts=len(calls))
+            continue
         success = C or any(c["result"] for c in calls)
+        if st.get("result_dropped"):
+            probs.append("the result of the decorated operation is not returned")
         if st["func_called"] and not success:
             probs.append("func is executed although no Forward Open succeeded")
         if st["func_called"] and not st.get("connected_at_call"):
@@ -383,51 +364,15 @@ def d10_3(ctx):
 RESET = {"_sock": None, "_target_is_connected": False, "_session": 0, "_connection_opened": False}
 
 
-@rule(P, "D10.4", "T-ALLPATHS", floor=5)
+@rule(P, "D10.4", "T-WITNESS", floor=5)
 def d10_4(ctx):
-    """close() resets the four state fields on every exit (incl. exceptional) to the constructor's initial values; only CommError leaves."""
-    drv = ctx.model.cls(f"{CD}:CIPDriver")
-    cl = drv.methods["close"]
-    init = drv.methods["__init__"]
-    g = ctx.cfg(cl)
-    init_vals = {}
-    for n in walk(init):
-        if isinstance(n, (ast.Assign, ast.AnnAssign)):
-            tgts = n.targets if isinstance(n, ast.Assign) else [n.target]
-            for t in tgts:
-                p = attr_path(t)
-                if p and p.startswith("self.") and n.value is not None:
-                    init_vals[p[5:]] = ctx.folder.eval(n.value, drv.module)
-    for attr, want in RESET.items():
-        stores = [n for n in g.nodes if n.kind == "stmt" and isinstance(n.ast, ast.Assign) and any(attr_path(t) == f"self.{attr}" for t in n.ast.targets)]
-        key = ckey(f"{CD}:CIPDriver.close", attr)
-        final = [s for s in stores if ctx.folder.eval(s.ast.value, drv.module) == want and type(ctx.folder.eval(s.ast.value, drv.module)) is type(want)]
-        if not final:
-            ctx.violation(key, cl, f"close() never resets self.{attr} to {want!r}: the driver still looks connected / a later open() does not start clean")
-            continue
-        witness = g.must_pass(set(final))
-        if witness is not None:
-            ctx.violation(key, final[0].ast, f"a path through close() skips `self.{attr} = {want!r}` (lines {[n.lineno for n in witness if n.lineno]}): an exception during closing leaves stale state", path=[n.lineno for n in witness if n.lineno])
-            continue
-        # no later store overrides it with another value
-        later_bad = False
-        for s in stores:
-            if s not in final:
-                for f in final:
-                    if g.must_pass({f}, start=s, sinks={g.exit, g.raise_exit}) is not None:
-                        later_bad = True
-        same_init = init_vals.get(attr, "missing") == want
-        ctx.check(not later_bad and same_init, key, final[0].ast, f"self.{attr} = {want!r} on every exit, equal to the constructor value",
-                  f"self.{attr}: reset value {want!r} vs constructor {init_vals.get(attr, 'missing')!r}; overridden later: {later_bad}", init=repr(init_vals.get(attr)))
-    raises = [n for n in walk(cl) if isinstance(n, ast.Raise)]
-    ctx.check(all(exc_name(r.exc) == "CommError" for r in raises), ckey(f"{CD}:CIPDriver.close", "raises"), cl, "collected errors are re-raised as CommError", f"close() raises {[exc_name(r.exc) for r in raises]}")
-    # the close-time calls are inside catch-all handlers (so the resets are reached)
-    for c in walk(cl):
-        if isinstance(c, ast.Call) and attr_path(c.func) in ("self._forward_close", "self._un_register_session", "self._sock.close"):
-            from ..guards import in_try_with_handler
+    """close() resets the four state fields to the constructor's initial values on every exit, whichever closing step fails;
+    only CommError leaves.  Decided by folding `close` (and any helper it delegates the reset to) on every combination of
+    connected / session / socket x failing step (D10.11).  An earlier form required the four assignments to be statements of
+    `close` itself and alarmed when they were moved into a private method."""
+    from .driver import _close_rule
 
-            h = in_try_with_handler(c, cl, {"Exception"})
-            ctx.check(h is not None, ckey(f"{CD}:CIPDriver.close", f"contained:{attr_path(c.func)}"), c, "failure is collected, not propagated before the resets", f"{attr_path(c.func)}() is not inside a catch-all try: its failure skips the resets")
+    _close_rule(ctx)
 
 
 @rule(P, "D10.5", "T-DOM", floor=3)
@@ -608,18 +553,14 @@ def d10_8(ctx):
     )
     ctx.check(good, ckey(f"{CD}:CIPDriver._forward_open", "net-params"), fo, "network parameters: point-to-point, variable size, size in 9 bits (0x54) / 16 bits (0x5B)",
               f"network connection parameters deviate from CIP 3-5.5.1.1: {facts}, flags {init_flags!r}", flags=init_flags, **{k: str(v) for k, v in facts.items()})
-    # service chosen by the same flag
-    svc_ok = False
-    for n in walk(fo):
-        if isinstance(n, ast.Assign) and atom_name(n.targets[0]) == "service" and isinstance(n.value, ast.IfExp):
-            t = n.value.test
-            neg = isinstance(t, ast.UnaryOp) and isinstance(t.op, ast.Not)
-            sub = t.operand if neg else t
-            is_flag = isinstance(sub, ast.Subscript) and attr_path(sub.value) == "self._cfg" and ctx.folder.eval(sub.slice, drv.module) == "extended forward open"
-            a, b = ctx.folder.eval(n.value.body, drv.module), ctx.folder.eval(n.value.orelse, drv.module)
-            std, ext = (a, b) if neg else (b, a)
-            svc_ok = is_flag and std == b"\x54" and ext == b"\x5b"
-    ctx.check(svc_ok, ckey(f"{CD}:CIPDriver._forward_open", "service"), fo, "0x5B with the extended flag, 0x54 otherwise", "the Forward Open service code is not selected by the flag that selects the parameter width")
+    # service chosen by the same flag as the parameter width (0x5B with 32-bit parameters, 0x54 with 16-bit ones), request
+    # addressing and outcome handling: decided by folding `_forward_open` on witnesses (D10.12) - an earlier form required a
+    # conditional expression assigned to `service` and alarmed when the choice was merged into the parameter branch
+    from .driver import _forward_open_rule
+
+    _forward_open_rule(ctx)
+    svc = (ctx.folder.eval(ast.parse("ConnectionManagerServices.forward_open", mode="eval").body, drv.module), ctx.folder.eval(ast.parse("ConnectionManagerServices.large_forward_open", mode="eval").body, drv.module))
+    ctx.check(svc == (b"\x54", b"\x5b"), ckey(f"{CD}:CIPDriver._forward_open", "service"), fo, "Forward Open = 0x54, Large Forward Open = 0x5B", f"Forward Open service codes are {svc!r}; CIP Vol.1 3-5.5 has 0x54 / 0x5B")
     # paths: open -> word count without reserved byte; close -> with reserved byte
     for mname, want_pad in (("_forward_open", sp["forward_open"]["path"]["reserved_byte_after_size"]), ("_forward_close", sp["forward_close"]["path"]["reserved_byte_after_size"])):
         m = drv.methods[mname]
